@@ -73,9 +73,10 @@ PROPS = {
         dict(name='scan', n=n(60000, 2000000), view='okfull', oracle='none'),
         dict(name='lay', n=n(40000, 1000000), view='full', oracle='none', laws=['same']),
         dict(name='num', n=n(40000, 1000000), oracle='none'),
+        dict(name='compile', n=n(30000, 600000), view='okfull', oracle='none'),
         dict(name='scanchars', n=n(0, 1), view='tmrange', oracle='none', laws=['scanrange'], expand='expand-scanrange', case_timeout=120.0),
     ],
-    rule='scanchars: EVERY Unicode scalar value (thorough; quick: the blocks U+0000-33FF, A000-ABFF, F900-10FFF, 1D000-1EFFF, E0000-E01FF) tokenized alone, next to a letter, a digit, `1.`, in a string, and substituted at every position of every keyword in lower and upper case (59 texts per code point), compared by digest per 256 code points and expanded to the single differing text on a mismatch; '
+    rule='compile: the same random texts through slac::compile (the entry point scripts come in by) against scan + parse of the model; scanchars: EVERY Unicode scalar value (thorough; quick: the blocks U+0000-33FF, A000-ABFF, F900-10FFF, 1D000-1EFFF, E0000-E01FF) tokenized alone, next to a letter, a digit, `1.`, in a string, and substituted at every position of every keyword in lower and upper case (59 texts per code point), compared by digest per 256 code points and expanded to the single differing text on a mismatch; '
          'scanfrag: ALL sequences of <=3 (quick) / <=4 (thorough) fragments from a 32-fragment alphabet (digits, dot, letters, keywords in mixed case, quotes, braces, //, newline, operators, non-ASCII letter); '
          'scan: random texts (rendered trees with random layout, fragment soup, decimal renderings of random doubles, quoted Unicode strings, truncations, mutations, random code points); '
          'lay: token sequence rendered twice with different whitespace/comments/keyword case, both tokenized by the crate and compared bit-exactly; num: str::parse::<f64> against the exact decimal->double model',
@@ -175,7 +176,7 @@ PROPS = {
     trusted=['str::to_lowercase decides which spellings are the same name (theorems hold for every fold function)'],
  ),
  'C08': dict(
-    modules=['SlacProps.C08'],
+    modules=['SlacProps.C08'], builds=['default', 'checked'],
     streams=[
         dict(name='evaltable', n=n(0, 0), view='first', laws=['no_crash']),
         dict(name='evalill', n=n(30000, 1000000), view='first', laws=['no_crash']),
@@ -194,6 +195,8 @@ PROPS = {
         dict(name='chain:opt', n=n(60, 1000), view='first', oracle='none', laws=['no_crash'], case_timeout=30.0),
         dict(name='chain:eval', n=n(60, 1000), view='first', laws=['no_crash'], case_timeout=30.0),
         dict(name='wide:eval', n=n(16, 160), view='first', laws=['no_crash'], case_timeout=60.0),
+        # JSON written by ANOTHER system (integer tokens at the i64/u64 limits, exponent spellings), deserialised in the overflow-checked build
+        dict(name='jsonin', build='checked', n=n(20000, 400000), model=False, oracle='none', laws=['no_crash']),
     ],
     rule='ill-formed generator: all 17 operators in unary/binary/ternary position, empty and odd names, non-finite and array literals, wrong argument counts, registered and unregistered calls; '
          'deep:* = one spine nested 1..64 levels with small random siblings. Every case runs in a worker process; compared observation: ok / err / crash / timeout class only. non-trivial = tree has an operator/call/array node',
@@ -218,6 +221,8 @@ PROPS = {
         dict(name='rep', n=n(100, 1500), model=False, oracle='none', laws=['stable'], tz='CET-1CEST,M3.5.0,M10.5.0/3'),
         dict(name='call', n=n(100, 2500), oracle='none', repeat_process=True, tz='CET-1CEST,M3.5.0,M10.5.0/3'),
         dict(name='nd', n=n(20000, 300000), oracle='none', laws=['nd']),
+        # a zone whose offset is not a whole number of hours (Newfoundland): its switches fall at hh:30 UTC
+        dict(name='callnst', gen='call:date_from_rfc3339,date_from_rfc2822,date_to_rfc3339,date_to_rfc2822', n=n(1500, 20000), oracle='none', repeat_process=True, tz='NST3:30NDT,M3.2.0,M11.1.0'),
     ],
     rule='nd: the two impure builtins (random, choice): an answer recorded at generation time is checked against the model with the OS random word explicit (is there a word that gives this answer?), and 8 fresh answers per case against the same relation on the crate; rep: every pure builtin x n argument lists, each evaluated 20 times in one process with other calls in between; call: the same lists evaluated in two separate processes (differently seeded hashers) and compared, '
          'and compared with the model (a Lean function of the arguments). Arrays whose elements are equal across kinds (1, \'1\', true) are over-represented',
@@ -241,7 +246,9 @@ PROPS = {
  'C15': dict(
     modules=['SlacProps.C15', 'SlacProps.C15Float'], builds=['default', 'zero'],
     streams=[dict(name='call:length,at,copy,insert,find,count,contains,replace,remove,reverse,unique,all,any,split,split_csv,trim,trim_left,trim_right,lowercase,uppercase,same_text', gen='call:length,at,copy,insert,find,count,contains,replace,remove,reverse,unique,all,any,split,split_csv,trim,trim_left,trim_right,lowercase,uppercase,same_text', build=b, n=n(250, 10000), oracle='none', laws=['no_crash']) for b in ('default', 'zero')] +
-            [dict(name='poslaw', build=b, n=n(30000, 1000000), model=False, oracle='none', laws=['ok']) for b in ('default', 'zero')],
+            [dict(name='poslaw', build=b, n=n(30000, 1000000), model=False, oracle='none', laws=['ok']) for b in ('default', 'zero')] +
+            # two look-alike calls of ONE builtin inside one expression (arguments only loosely equal: 1 / true / '1', 0 / -0), through compile + execute + optimize
+            [dict(name='pairs', gen='pairs:length,at,copy,insert,find,count,contains,replace,remove,reverse,unique,all,any,split,split_csv,trim,trim_left,trim_right,lowercase,uppercase,same_text,max,min,sort,str', n=n(150, 5000), view='script_exec', oracle='none')],
     rule='call: the 21 collection/string builtins x generated argument lists in both index-base builds: strings from ASCII / multi-byte / combining / astral / empty pools, heterogeneous and nested arrays, needles that are substrings, empty, overlapping (aa in aaa); '
          'positions and counts at first-1, first, last, last+1, 0, fractional, huge, NaN; answers compared with the sequence model. poslaw: at-enumeration, copy(s, find(s,x), length(x)) = x, failed find = first-1, array laws — evaluated on the builtins themselves',
     trusted=[FLOAT_TB, 'LawfulIdx Float is PROVED (SlacProofs/F64Idx.lean): the position theorems hold for binary64 without hypotheses (SlacProps/C15Float.lean)',
